@@ -6,6 +6,9 @@
 -/
 import FocaModel.Proofs.CalmInv
 import FocaModel.Proofs.EvidenceInv
+import FocaModel.Proofs.SendInv
+import FocaModel.Proofs.GenInv
+import FocaModel.Proofs.MsInv
 namespace Foca
 open Foca.C07 Foca.C07H
 
@@ -300,4 +303,387 @@ theorem StageSince.step (E : Env) (s0 s : State) (op : Op) (orc : Oracle) (h : S
   | ok r c => rw [hr] at hrun; exact hrun
   | err e c => rw [hr] at hrun; exact hrun
 
+/-! ### a probe round starts with a Ping -/
+
+section
+variable (E : Env)
+
+/-- a successful second stage of a probe round: nobody to ping (the probe is untouched), or the round for `member`
+    was started and its Ping — `header ++ body` — is the datagram of this stage -/
+theorem probeStartNext_ok (c c' : Ctx) (h : Foca.probeStartNext E c = .ok () c') :
+    (c'.s.probe = c.s.probe ∧ c'.eff = c.eff) ∨
+    ∃ member body, c'.s.probe = c.s.probe.start member ∧
+      c'.eff = c.eff ++ [.send member.id (E.codec.encHeader ⟨c'.s.id, c'.s.inc, member.id, .ping c'.s.probe.number⟩ ++ body),
+        .timer c'.s.cfg.probeRtt (.indirect member.id c'.s.token)] := by
+  unfold Foca.probeStartNext at h
+  simp only [bind_run] at h
+  have hm := membersNext_only c
+  cases hn : membersNext c with
+  | stuck x => rw [hn] at h; simp at h
+  | err e c1 => rw [hn] at h; simp at h
+  | ok r c1 =>
+    rw [hn] at h hm
+    simp only [MemOnly, OnlyMembership] at hm
+    have heff1 : c1.eff = c.eff := by
+      have := Silent.membersNext c
+      rw [hn] at this
+      exact this
+    cases r with
+    | none =>
+      left
+      simp only [pure_run, R.ok.injEq, true_and] at h
+      subst h
+      exact ⟨by rw [hm], heff1⟩
+    | some member =>
+      right
+      simp only [bind_run, modS_run, getS_run] at h
+      have hsp := sendMessage_spec E member.id (.ping (c1.s.probe.start member).number)
+        { c1 with s := { c1.s with probe := c1.s.probe.start member } }
+      cases hs : Foca.sendMessage E member.id (.ping (c1.s.probe.start member).number)
+          { c1 with s := { c1.s with probe := c1.s.probe.start member } } with
+      | stuck x => rw [hs] at h; simp at h
+      | err e c2 => rw [hs] at h; simp at h
+      | ok u c2 =>
+        rw [hs] at h hsp
+        simp only [emit_run, R.ok.injEq, true_and, SendOK] at h hsp
+        obtain ⟨hob, body, he, _⟩ := hsp
+        unfold OnlyBacklogs at hob
+        subst h
+        refine ⟨member, body, ?_, ?_⟩
+        · simp only; rw [hob]; simp only; rw [hm]
+        · simp only
+          rw [he, hob]
+          simp only [List.append_assoc, List.cons_append, List.nil_append]
+          rw [heff1, hm]
+
+/-- a probe round that returned `Ok`: the cycle before it was complete; first stage, second stage, then the probe
+    timer is re-armed -/
+theorem probeRandomMember_ok (c c' : Ctx) (hconn : c.s.conn = .connected)
+    (h : Foca.probeRandomMember E c = .ok () c') :
+    c.s.probe.validate = true ∧ ∃ c1 c2, Foca.probeSuspectFailed E c = .ok () c1 ∧ Foca.probeStartNext E c1 = .ok () c2 ∧
+      c' = { c2 with eff := c2.eff ++ [.timer c2.s.cfg.probePeriod (.probe c2.s.token)] } := by
+  unfold Foca.probeRandomMember at h
+  simp only [bind_run, getS_run] at h
+  have hd : (E.debug && c.s.conn != Conn.connected) = false := by simp [hconn]
+  simp only [hd, Bool.false_eq_true, ↓reduceIte] at h
+  by_cases hv : c.s.probe.validate = true
+  · refine ⟨hv, ?_⟩
+    simp only [hv, Bool.not_true, Bool.false_eq_true, ↓reduceIte, pure_run, bind_run, getS_run] at h
+    cases h1 : Foca.probeSuspectFailed E c with
+    | stuck x => rw [h1] at h; simp at h
+    | err e c1 => rw [h1] at h; simp at h
+    | ok u c1 =>
+      rw [h1] at h
+      simp only at h
+      cases h2 : Foca.probeStartNext E c1 with
+      | stuck x => rw [h2] at h; simp at h
+      | err e c2 => rw [h2] at h; simp at h
+      | ok u2 c2 =>
+        rw [h2] at h
+        simp only [emit_run, R.ok.injEq, true_and] at h
+        exact ⟨c1, c2, rfl, h2, h.symm⟩
+  · exfalso
+    have hv' : c.s.probe.validate = false := by simpa using hv
+    simp only [hv', Bool.not_false, ↓reduceIte, modS_run, bind_run, getS_run] at h
+    cases h1 : Foca.probeSuspectFailed E { c with s := { c.s with probe := c.s.probe.clear } } with
+    | stuck x => rw [h1] at h; simp at h
+    | err e c1 => rw [h1] at h; simp at h
+    | ok u c1 =>
+      rw [h1] at h
+      simp only at h
+      cases h2 : Foca.probeStartNext E c1 with
+      | stuck x => rw [h2] at h; simp at h
+      | err e c2 => rw [h2] at h; simp at h
+      | ok u2 c2 =>
+        rw [h2] at h
+        simp [throwE] at h
+
+end
+
+/-! ### a calm receiver that is not defunct ends up connected -/
+
+/-- the connection state is exactly this -/
+def ConnIs (cn : Conn) (s : State) (_ : List Effect) : Prop := s.conn = cn
+
+section
+variable (E : Env) (cn : Conn)
+
+theorem ConnIs.modS_of {f : State → State} (h : ∀ s, (f s).conn = s.conn) : PresC (ConnIs cn) (Foca.modS f) :=
+  ⟨fun c hc => by simp only [modS_run]; unfold ConnIs at *; rw [h]; exact hc⟩
+
+theorem ConnIs.sendMessage (d : Id) (m : Msg) : PresC (ConnIs cn) (Foca.sendMessage E d m) :=
+  ⟨fun c hc => by
+    have := sendMessage_spec E d m c
+    cases h : Foca.sendMessage E d m c with
+    | stuck x => trivial
+    | err k c' => rw [h] at this; simp only [SendOK] at this ⊢; unfold ConnIs at *; rw [this.2.1]; exact hc
+    | ok a c' =>
+      rw [h] at this
+      simp only [SendOK] at this ⊢
+      have hb := this.1
+      unfold OnlyBacklogs at hb
+      unfold ConnIs at *
+      rw [hb]; exact hc⟩
+
+theorem ConnIs.customLoop (sender : Option Id) (fuel : Nat) (data : Bytes) :
+    PresC (ConnIs cn) (Foca.customLoop E sender fuel data) := by
+  induction fuel generalizing data with
+  | zero => unfold Foca.customLoop; exact PresC.throwE _
+  | succ f ih =>
+    unfold Foca.customLoop
+    presc
+    all_goals first
+      | exact ConnIs.modS_of cn (fun _ => rfl)
+      | exact ih _
+
+theorem ConnIs.handleCustomBroadcasts (data : Bytes) (sender : Option Id) :
+    PresC (ConnIs cn) (Foca.handleCustomBroadcasts E data sender) := by
+  unfold Foca.handleCustomBroadcasts
+  presc
+  exact ConnIs.customLoop E cn _ _ _
+
+/-- the reply table, for any message but TurnUndead, leaves the connection state alone -/
+theorem ConnIs.reactToMessage (h : Header) (hm : h.msg ≠ .turnUndead) : PresC (ConnIs cn) (Foca.reactToMessage E h) := by
+  unfold Foca.reactToMessage
+  cases hmsg : h.msg with
+  | turnUndead => exact absurd hmsg hm
+  | _ =>
+    simp only []
+    presc
+    all_goals first
+      | exact ConnIs.sendMessage E cn _ _
+      | exact ConnIs.modS_of cn (fun _ => rfl)
+
+
+theorem ConnIs.applyUpdate (u : Member) (b : Bool) : PresC (ConnIs cn) (Foca.applyUpdate E u b) :=
+  PresC.of_core (Q := fun s => s.conn = cn) (fun s s' _ _ h3 _ _ h => by rw [h3]; exact h)
+    (fun _ _ _ _ _ => CoreIs.applyUpdate E u b)
+
+/-- applying an Alive update — also one about the instance itself — leaves the connection state alone -/
+theorem ConnIs.applyOne (u : Member) (b : Bool) (hu : u.st = .alive) : PresC (ConnIs cn) (Foca.applyOne E u b) := by
+  unfold Foca.applyOne
+  rw [hu]
+  presc
+  all_goals first
+    | exact ConnIs.applyUpdate E cn _ _
+    | (unfold Foca.handleSelfUpdate; exact PresC.pure _)
+
+theorem ConnIs.applyLoop (b : Bool) (us : List Member) (hus : ∀ u ∈ us, u.st = .alive) :
+    PresC (ConnIs cn) (Foca.applyLoop E b us) := by
+  induction us with
+  | nil => unfold Foca.applyLoop; exact PresC.pure _
+  | cons u rest ih =>
+    unfold Foca.applyLoop
+    exact PresC.bind (ConnIs.applyOne E cn u b (hus u (by simp))) (fun _ => ih (fun x hx => hus x (by simp [hx])))
+
+/-- the tail of `become_connected` after the state write -/
+def connTail (s : State) : M Unit := do
+  Foca.emit (.timer s.cfg.probePeriod (.probe s.token))
+  match s.cfg.pa with
+  | some p => Foca.emit (.timer p.freq (.pa s.token))
+  | none => pure ()
+  match s.cfg.pad with
+  | some p => Foca.emit (.timer p.freq (.pad s.token))
+  | none => pure ()
+  match s.cfg.pg with
+  | some p => Foca.emit (.timer p.freq (.pg s.token))
+  | none => pure ()
+  Foca.emit (.notify .active)
+
+theorem becomeConnected_eq : Foca.becomeConnected E = (do
+    let s ← Foca.getS
+    if E.debug && s.numActive == 0 then Foca.panicAt .connectedNoMembers else
+    Foca.modS fun s => { s with conn := .connected }
+    connTail s) := rfl
+
+theorem connTail_conn (s : State) : PresC (ConnIs .connected) (connTail s) := by
+  unfold connTail
+  presc
+  all_goals exact ⟨fun _ hc => hc⟩
+
+theorem becomeConnected_conn (c : Ctx) :
+    match Foca.becomeConnected E c with
+    | .ok _ c' => c'.s.conn = .connected
+    | .err _ c' => c'.s.conn = .connected
+    | .stuck _ => True := by
+  rw [becomeConnected_eq]
+  simp only [bind_run, getS_run]
+  by_cases hdbg : (E.debug && c.s.numActive == 0) = true
+  · simp [hdbg, panicAt]
+  · simp only [hdbg, Bool.false_eq_true, ↓reduceIte]
+    rw [bind_run, modS_run]
+    simp only []
+    have key := (connTail_conn c.s).run { c with s := { c.s with conn := .connected } } rfl
+    revert key
+    generalize connTail c.s _ = r
+    intro key
+    cases r <;> exact key
+
+/-- `adjust_connection_state` of an instance that is not defunct and lists an active member: connected afterwards -/
+theorem adjust_connects (c c' : Ctx) (hnu : c.s.conn ≠ .undead) (hact : 0 < c.s.numActive)
+    (h : Foca.adjustConnectionState E c = .ok () c') : c'.s.conn = .connected := by
+  unfold Foca.adjustConnectionState at h
+  simp only [bind_run, getS_run] at h
+  cases hcn : c.s.conn with
+  | undead => exact absurd hcn hnu
+  | connected =>
+    rw [hcn] at h
+    have : (c.s.numActive == 0) = false := by simp; omega
+    simp only [this, Bool.false_eq_true, ↓reduceIte, pure_run, R.ok.injEq, true_and] at h
+    rw [← h]; exact hcn
+  | disconnected =>
+    rw [hcn] at h
+    simp only [hact, ↓reduceIte] at h
+    have := becomeConnected_conn E c
+    rw [h] at this
+    exact this
+
+theorem membersApply_nonempty (u : Member) (c c1 : Ctx) (sm : Summary) (h : Foca.membersApply u c = .ok sm c1) :
+    c1.s.ms ≠ [] := by
+  unfold Foca.membersApply at h
+  cases hx : applyExisting c.s.ms u (fun _ => true) with
+  | some r =>
+    obtain ⟨ms', sm'⟩ := r
+    rw [hx] at h
+    simp only [R.ok.injEq] at h
+    rw [← h.2]
+    simp only
+    intro hnil
+    subst hnil
+    cases hms : c.s.ms with
+    | nil => rw [hms] at hx; simp [applyExisting] at hx
+    | cons k rest =>
+      rw [hms] at hx
+      unfold applyExisting at hx
+      split at hx
+      · simp at hx
+      · split at hx <;> simp at hx
+  | none =>
+    rw [hx] at h
+    simp only at h
+    cases hd : drawIdx .choose (c.s.ms.length + 1) c with
+    | stuck x => rw [hd] at h; simp at h
+    | err e c2 => rw [hd] at h; simp at h
+    | ok j c2 =>
+      rw [hd] at h
+      simp only [R.ok.injEq] at h
+      rw [← h.2]
+      simp only
+      intro hnil
+      have hp := (applyNew_perm c.s.ms u j).length_eq
+      rw [hnil] at hp
+      simp at hp
+
+
+theorem applyUpdate_nonempty (u : Member) (b : Bool) (c c1 : Ctx) (act : Bool)
+    (h : Foca.applyUpdate E u b c = .ok act c1) : c1.s.ms ≠ [] := by
+  unfold Foca.applyUpdate at h
+  simp only [bind_run, getS_run] at h
+  by_cases hdbg : (E.debug && c.s.id == u.id) = true
+  · simp [hdbg, panicAt] at h
+  · simp only [hdbg, Bool.false_eq_true, ↓reduceIte, bind_run] at h
+    cases hm : Foca.membersApply u c with
+    | stuck x => rw [hm] at h; simp at h
+    | err e c2 => rw [hm] at h; simp at h
+    | ok sm c2 =>
+      rw [hm] at h
+      simp only at h
+      have hne := membersApply_nonempty u c c2 sm hm
+      have hp := (handleApplySummary_pres (E := E) (P := fun s => s.ms ≠ []) (u := u)
+        (by unfold Foca.addUpdate; exact Pres.modS_of (fun s hs => hs)) sm b).run c2 hne
+      cases hh : Foca.handleApplySummary E sm u b c2 with
+      | stuck x => rw [hh] at h; simp at h
+      | err e c3 => rw [hh] at h; simp at h
+      | ok u3 c3 =>
+        rw [hh] at h hp
+        simp only [pure_run, R.ok.injEq] at h
+        rw [← h.2]
+        exact hp
+
+theorem countActive_all (ms : List Member) (h : ∀ m ∈ ms, m.active = true) : countActive ms = ms.length := by
+  unfold countActive
+  rw [List.filter_eq_self.2 h]
+
+end
+
+section
+variable (E : Env) (τ : Id → Nat) (ids : List Id) (K : Msg → Prop)
+
+/-- **A calm receiver that is not defunct ends up connected.** In a calm state with exact member bookkeeping
+    (`MsInv`, true of every reachable state), an instance that is not defunct and handles — successfully — a calm
+    datagram addressed to it lists the sender as active afterwards and is therefore connected when the call
+    returns (and was when the reply table ran). -/
+theorem calm_receiver_connected (hd : DistinctAddrs ids) (data : Bytes) (c c' : Ctx)
+    (hc : CalmSent E τ ids K c.s c.eff) (hms : MsInv c.s) (hnu : c.s.conn ≠ .undead)
+    (hdat : DataOk E (CalmM τ ids) (CalmH τ ids) data)
+    (hrun : Foca.handleData E data c = .ok () c') (h : Header) (rest : Bytes)
+    (hdec : E.codec.decHeader data = some (h, rest)) (hdst : h.dst = c.s.id) : c'.s.conn = .connected := by
+  obtain ⟨h', rest', hdec', hcase⟩ := handleData_ok E data c c' hrun
+  rw [hdec] at hdec'
+  simp only [Option.some.injEq, Prod.mk.injEq] at hdec'
+  obtain ⟨rfl, rfl⟩ := hdec'
+  rcases hcase with ⟨hacc, _⟩ | ⟨updates, tail, hparse, act, c1, hu, hcase⟩
+  · exfalso
+    simp [Gen.acceptPayload, hdst] at hacc
+  · obtain ⟨hh, hmem⟩ := hdat h rest hdec
+    have h1 := (CalmP.applyUpdate E τ ids K hd ⟨h.src, h.srcInc, .alive⟩ true hh.sender).run c hc
+    rw [hu] at h1
+    simp only at h1
+    obtain ⟨hc1, hact⟩ := h1
+    rcases hcase with ⟨hf, _⟩ | ⟨_, c2, cres, c3, hm, hcb, hrs⟩
+    · rw [hact] at hf; cases hf
+    · -- after the sender's header: same connection state, exact bookkeeping, a non-empty list
+      have k1 := (ConnIs.applyUpdate E c.s.conn ⟨h.src, h.srcInc, .alive⟩ true).run c rfl
+      rw [hu] at k1
+      simp only [ConnIs] at k1
+      have m1 := ((MsInv.leaves E).base.applyUpdate ⟨h.src, h.srcInc, .alive⟩ true trivial).run c hms
+      rw [hu] at m1
+      simp only at m1
+      have n1 := applyUpdate_nonempty E _ _ c c1 act hu
+      -- the update loop
+      have hus := hmem updates tail hparse
+      unfold Foca.applyMany at hm
+      simp only [bind_run] at hm
+      cases hl : Foca.applyLoop E true updates c1 with
+      | stuck x => rw [hl] at hm; simp at hm
+      | err e c1' => rw [hl] at hm; simp at hm
+      | ok ul c1' =>
+        rw [hl] at hm
+        simp only at hm
+        have k2 := (ConnIs.applyLoop E c1.s.conn true updates (fun u hu' => (hus u hu').2.1)).run c1 rfl
+        rw [hl] at k2
+        simp only [ConnIs] at k2
+        have m2 := ((MsInv.leaves E).full.applyLoop true updates (fun _ _ => trivial)).run c1 m1
+        rw [hl] at m2
+        simp only at m2
+        have c2' := (CalmP.applyLoop E τ ids K hd true updates hus).run c1 hc1
+        rw [hl] at c2'
+        simp only at c2'
+        have n2 : c1'.s.ms ≠ [] := by
+          cases hms1 : c1.s.ms with
+          | nil => exact absurd hms1 n1
+          | cons m0 rest0 =>
+            have g1 : GenInv m0.id.addr 0 c1.s := ⟨m0, by rw [hms1]; simp, rfl, Nat.zero_le _⟩
+            have g2 := ((GenInv.full (E := E) (a := m0.id.addr) (g := 0)).applyLoop true updates (fun _ _ => trivial)).run c1 g1
+            rw [hl] at g2
+            simp only at g2
+            obtain ⟨r, hr, _⟩ := g2
+            intro hnil
+            rw [hnil] at hr
+            simp at hr
+        have hact' : 0 < c1'.s.numActive := by
+          rw [m2.2, countActive_all _ (fun m hm' => alive_active ((c2'.1.2.2.1 m hm').2.1))]
+          exact List.length_pos_iff.2 n2
+        have k3 := adjust_connects E c1' c2 (by rw [k2, k1]; exact hnu) hact' hm
+        -- custom broadcasts, reply stage
+        have k4 := (PresC.attempt (ConnIs.handleCustomBroadcasts E .connected tail (some h.src))).run c2 k3
+        rw [hcb] at k4
+        simp only [ConnIs] at k4
+        rcases replyStage_ok E h cres c3 c' hrs with ⟨hncn, _⟩ | ⟨_, hreact⟩
+        · exact absurd k4 hncn
+        · have k5 := (ConnIs.reactToMessage E .connected h hh.2.2.2.1).run c3 k4
+          rw [hreact] at k5
+          exact k5
+
+end
 end Foca
